@@ -49,6 +49,8 @@ structure Cls where
   invSetattr : Option Ref := none   -- `__invariants_on_setattr__`
   dbc : Bool := true
   mro : List ClsId := []
+  wrapped : List String := []       -- own members that are invariant-checking wrappers
+  declared : List String := []      -- names the class body itself declares (before any copy-down)
 deriving Repr, Inhabited
 
 /-- when an invariant is checked -/
@@ -63,6 +65,7 @@ structure World where
   classes : List Cls := []
   snapNames : List (Nat × String) := []       -- snapshot id ↦ name
   hookCalls : List ClsId := []                -- calls of `_register_for_hypothesis`
+  invCheckOn : List (CId × CheckOn) := []     -- `check_on` of every invariant created so far
 deriving Repr, Inhabited
 
 def World.cls? (w : World) (k : ClsId) : Option Cls := w.classes.find? (·.id == k)
@@ -179,16 +182,38 @@ def Member.asFunc : Member → Option FnId
   | .classm f => some f
   | _ => none
 
-/-- lists collected from the direct bases for a function member: (bases_have_func, groups, snaps, posts) -/
+/-- the function object behind accessor `which` of a member (functions: any `which`) -/
+def memberFnId (m : Member) (which : Nat) : Option FnId :=
+  match m with
+  | .func f | .static f | .classm f => some f
+  | .prop g s d => if which = 0 then g else if which = 1 then s else d
+  | .other => none
+
+/-- lists collected from the direct bases for a function member:
+(bases_have_func, groups, snaps, posts); a base that provides the member without any precondition
+(no checker, or an empty `__preconditions__`) accepts every call and empties the collected groups -/
+structure BaseAcc where
+  haveFunc : Bool := false
+  acceptAll : Bool := false
+  pre : List Nat := []
+  snaps : List Nat := []
+  posts : List Nat := []
+
+def BaseAcc.result (a : BaseAcc) : Bool × List Nat × List Nat × List Nat :=
+  (a.haveFunc, if a.acceptAll then [] else a.pre, a.snaps, a.posts)
+
+def BaseAcc.add (w : World) (a : BaseAcc) (ck : Option CheckerObj) : BaseAcc :=
+  match ck with
+  | none => { a with haveFunc := true, acceptAll := true }
+  | some ck =>
+    { haveFunc := true, acceptAll := a.acceptAll || (w.heap.get ck.pre).isEmpty,
+      pre := a.pre ++ w.heap.get ck.pre, snaps := a.snaps ++ w.heap.get ck.snaps, posts := a.posts ++ w.heap.get ck.posts }
+
 def collectBases (w : World) (bases : List ClsId) (key : String) : Bool × List Nat × List Nat × List Nat :=
-  bases.foldl (fun (acc : Bool × List Nat × List Nat × List Nat) b =>
+  (bases.foldl (fun (acc : BaseAcc) b =>
     match lookupMember w b key with
     | none => acc
-    | some m =>
-      match m.asFunc.bind w.checker? with
-      | none => (true, acc.2.1, acc.2.2.1, acc.2.2.2)
-      | some ck => (true, acc.2.1 ++ w.heap.get ck.pre, acc.2.2.1 ++ w.heap.get ck.snaps, acc.2.2.2 ++ w.heap.get ck.posts))
-    (false, [], [], [])
+    | some m => acc.add w (m.asFunc.bind w.checker?)) {}).result
 
 /-- the accessor `which` (0 = fget, 1 = fset, 2 = fdel) of a property member -/
 def Member.accessor (m : Member) (which : Nat) : Option FnId :=
@@ -198,17 +223,13 @@ def Member.accessor (m : Member) (which : Nat) : Option FnId :=
 
 def collectBasesProp (w : World) (bases : List ClsId) (key : String) (which : Nat) :
     Bool × List Nat × List Nat × List Nat :=
-  bases.foldl (fun (acc : Bool × List Nat × List Nat × List Nat) b =>
+  (bases.foldl (fun (acc : BaseAcc) b =>
     match lookupMember w b key with
     | none => acc
     | some m =>
       match m.accessor which with
       | none => acc
-      | some f =>
-        match w.checker? f with
-        | none => (true, acc.2.1, acc.2.2.1, acc.2.2.2)
-        | some ck => (true, acc.2.1 ++ w.heap.get ck.pre, acc.2.2.1 ++ w.heap.get ck.snaps, acc.2.2.2 ++ w.heap.get ck.posts))
-    (false, [], [], [])
+      | some f => acc.add w (w.checker? f)) {}).result
 
 def firstDuplicate (w : World) (snaps : List Nat) : Option String :=
   let rec go (seen : List String) : List Nat → Option String
@@ -253,15 +274,73 @@ def decorateMember (w : World) (bases : List ClsId) (key : String) (m : Member) 
       (match d with | some f => decorateOne w key f true (collectBasesProp w bases key 2) | none => .ok w)
   | .other => .ok w
 
-/-- `_collapse_invariants` for one dunder: a **fresh** merged list, stored only if non-empty -/
+/-- `_collapse_invariants` for one dunder: a **fresh** merged list, stored whenever it is non-empty
+or some base has the attribute (so the class never shares a list object with a base) -/
 def collapseInv (w : World) (bases : List ClsId) (d : InvDunder) : World × Option Ref :=
   let merged := bases.foldl (fun acc b => match lookupInv w b d with
     | some r => acc ++ w.heap.get r
     | none => acc) []
-  if merged.isEmpty then (w, none)
+  let basesHave := bases.any (fun b => (lookupInv w b d).isSome)
+  if merged.isEmpty && !basesHave then (w, none)
   else
     let (h, r) := w.heap.alloc merged
     ({ w with heap := h }, some r)
+
+/-! ### `add_invariant_checks`: which members get (re-)bound on the class -/
+
+def setCls (w : World) (c : Cls) : World :=
+  { w with classes := w.classes.map (fun x => if x.id == c.id then c else x) }
+
+/-- the class that provides `key` for `k` (first in the MRO) together with the member -/
+def lookupOwner (w : World) (k : ClsId) (key : String) : Option (ClsId × Member) :=
+  match w.cls? k with
+  | none => none
+  | some c =>
+    c.mro.findSome? (fun a => match w.cls? a with
+      | some ca => (ca.ns.find? (·.1 == key)).map (fun p => (a, p.2))
+      | none => none)
+
+def isDunderName (s : String) : Bool := s.startsWith "__" && s.endsWith "__"
+
+/-- would `add_invariant_checks` consider this directory entry for wrapping, given the
+`check_on` of the last invariant (lines 1209-1273) -/
+def wrapCandidate (last : CheckOn) (key : String) (m : Member) : Bool :=
+  if key == "__new__" || key == "__repr__" || key == "__getattribute__" then false
+  else if key == "__init__" then (match m with | .func _ => true | _ => false)
+  else if key != "__setattr__" && !last.call then false
+  else if key == "__setattr__" && !last.setattr then false
+  else if key.startsWith "_" && !isDunderName key then false
+  else match m with
+    | .func _ => true
+    | .prop _ _ _ => true
+    | _ => false            -- static methods, class methods and other values are skipped
+
+/-- all names `dir(cls)` shows that come from the modelled namespaces -/
+def dirKeys (w : World) (c : Cls) : List String :=
+  ((c.mro.map (fun a => match w.cls? a with | some ca => ca.ns.map (·.1) | none => [])).flatten).eraseDups
+
+/-- `add_invariant_checks(cls)`: every candidate that is not yet an invariant wrapper is wrapped and
+bound on `cls` itself - an inherited one is thereby copied down into `cls`'s namespace -/
+def addInvariantChecks (w : World) (k : ClsId) : World :=
+  match w.cls? k with
+  | none => w
+  | some c =>
+    let lastOn : CheckOn :=
+      match (match lookupInv w k .all with | some r => (w.heap.get r).getLast? | none => none) with
+      | some cid => ((w.invCheckOn.find? (·.1 == cid)).map (·.2)).getD { call := true, setattr := false }
+      | none => { call := true, setattr := false }
+    let c' := (dirKeys w c).foldl (fun (c : Cls) key =>
+      match lookupOwner (setCls w c) k key with
+      | none => c
+      | some (owner, m) =>
+        if !wrapCandidate lastOn key m then c
+        else
+          let ownerWrapped := if owner == k then c.wrapped.contains key
+            else match w.cls? owner with | some oc => oc.wrapped.contains key | none => false
+          if ownerWrapped then c
+          else if owner == k then { c with wrapped := c.wrapped ++ [key] }
+          else { c with ns := c.ns ++ [(key, m)], wrapped := c.wrapped ++ [key] }) c
+    setCls w c'
 
 /-- `class K(*bases, metaclass=DBCMeta)` with the given namespace -/
 def defineClass (w : World) (k : ClsId) (bases : List ClsId) (ns : List (String × Member)) (dbc : Bool)
@@ -269,7 +348,8 @@ def defineClass (w : World) (k : ClsId) (bases : List ClsId) (ns : List (String 
   if !dbc then
     match computeMro w k bases with
     | none => .error .mroConflict
-    | some mro => .ok { w with classes := w.classes ++ [{ id := k, bases := bases, ns := ns, dbc := false, mro := mro }] }
+    | some mro => .ok { w with classes := w.classes ++ [{ id := k, bases := bases, ns := ns, dbc := false, mro := mro,
+                                                          declared := ns.map (·.1) }] }
   else do
     let (w, i1) := collapseInv w bases .all
     let (w, i2) := collapseInv w bases .onCall
@@ -278,15 +358,15 @@ def defineClass (w : World) (k : ClsId) (bases : List ClsId) (ns : List (String 
     match computeMro w k bases with
     | none => .error .mroConflict
     | some mro =>
-      .ok { w with
-        classes := w.classes ++ [{ id := k, bases := bases, ns := ns, inv := i1, invCall := i2, invSetattr := i3,
-                                   dbc := true, mro := mro }],
-        hookCalls := if registerHook then w.hookCalls ++ [k] else w.hookCalls }
+      .ok (
+        let w' := { w with
+          classes := w.classes ++ [{ id := k, bases := bases, ns := ns, inv := i1, invCall := i2, invSetattr := i3,
+                                     dbc := true, mro := mro, declared := ns.map (·.1) }],
+          hookCalls := if registerHook then w.hookCalls ++ [k] else w.hookCalls }
+        -- `if hasattr(cls, "__invariants__"): add_invariant_checks(cls)`
+        if (lookupInv w' k .all).isSome then addInvariantChecks w' k else w')
 
 /-! ### the `invariant` class decorator -/
-
-def setCls (w : World) (c : Cls) : World :=
-  { w with classes := w.classes.map (fun x => if x.id == c.id then c else x) }
 
 /-- `invariant.__call__`: create the three lists if `__invariants__` is not reachable, otherwise
 use whatever `getattr` finds (possibly a base's list), then append in place -/
@@ -306,7 +386,7 @@ def addInvariant (w : World) (k : ClsId) (c : CId) (on : CheckOn) : World :=
     let h := w.heap.append rAll c
     let h := if on.call then h.append rCall c else h
     let h := if on.setattr then h.append rSet c else h
-    { w with heap := h }
+    addInvariantChecks { w with heap := h, invCheckOn := w.invCheckOn ++ [(c, on)] } k
 
 /-! ### observation: what introspection shows -/
 
